@@ -141,7 +141,7 @@ func C19(r *eng.Run) {
 				// Every scripted session is built to succeed when run alone.
 				r.Failf("session_alone_wrong", "session %d run alone: %s", i, l)
 			}
-			if strings.Contains(l, "match=false") || strings.HasPrefix(l, "PANIC") || strings.Contains(l, "payload was modified") || strings.Contains(l, "was modified later") || strings.Contains(l, "intact=false") || strings.Contains(l, "its compressor emits") {
+			if strings.Contains(l, "match=false") || strings.HasPrefix(l, "PANIC") || strings.Contains(l, "payload was modified") || strings.Contains(l, "was modified later") || strings.Contains(l, "intact=false") || strings.Contains(l, "its compressor emits") || strings.Contains(l, "wrong address") || strings.Contains(l, "vanished: failed=false") {
 				r.Failf("session_alone_wrong", "session %d run alone: %s", i, l)
 			}
 		}
